@@ -546,10 +546,15 @@ pub fn run(cfg: &Cfg, rep: &mut Report) {
         while pools.err.get(name).map(|p| p.n).unwrap_or(0.0) < target && guard < 200_000 {
             guard += 1;
             let big = rng.below(16) == 0;
-            let l = Lay::random(kind, &mut rng, big);
+            let mut l = Lay::random(kind, &mut rng, big);
+            // one layout in eight uses a tight admissible truncation bound (bound >= sigma): a sampler that lets a tail through
+            // is invisible at 6 sigma (probability ~ 2^-29 per coefficient) and certain at 1..2 sigma
+            if rng.below(8) == 0 {
+                l.bf = *rng.pick(&[1.0, 1.25, 2.0]);
+            }
             let inp = Inputs::from(rng.next_u64());
             let module = cached_module(l.n);
-            rep.case(&format!("fresh_{name}"), &l.key(kind), true);
+            rep.case(&format!("fresh_{name}"), &format!("{}|bf{}", l.key(kind), l.bf), true);
             rep.sample_for_op(&format!("{BE_NAME}:{name}"), || l.desc(kind));
             match build(module, kind, &l, &inp, rep, "stat") {
                 Ok(obj) => {
@@ -560,6 +565,11 @@ pub fn run(cfg: &Cfg, rep: &mut Report) {
                         if rep.counters.get(&format!("excluded_from_pool:{BE_NAME}:{name}")).copied().unwrap_or(0) > 20 {
                             break;
                         }
+                        continue;
+                    }
+                    if l.bf != 6.0 {
+                        // the pooled moments are stated for the 6 sigma truncation; tight bounds only take the hard check above
+                        rep.count("tight_bound_objects", 1);
                         continue;
                     }
                     pool_object(&mut pools, name, &l, &obj);
